@@ -10,10 +10,12 @@ def run(tier):
     cfg = "MC_Server_guard.cfg" if tier == "quick" else "MC_Server_guard_thorough.cfg"
     res = vlib.tlc("MC_Server", cfg, workers=4, timeout=900)
     rep.add_tlc(res, "open / failed upgrade / finish (respond, client close, peer reset, server close) over limits 0..3; Inv_Bound, Inv_Conservation")
-    cases = res["replay"]
+    res2 = vlib.tlc("MC_Server", "MC_Server_guard_inactive.cfg", workers=2, timeout=300)
+    rep.add_tlc(res2, "server-side close for ping inactivity with a call in flight")
+    cases = res["replay"] + [c for c in res2["replay"] if any(s["op"].get("how") == "inactive" for s in c["path"])]
     seen = {(c["path"][-1]["op"]["o"], c["path"][-1]["op"].get("how", ""), c["path"][-1]["res"]) for c in cases}
     need = {("open", "", "ok"), ("open", "", "429"), ("upgradeFail", "", "failed"), ("upgradeFail", "", "429"), ("finish", "respond", "ok"),
-            ("finish", "reset", "ok"), ("finish", "clientClose", "ok"), ("finish", "serverClose", "ok")}
+            ("finish", "reset", "ok"), ("finish", "clientClose", "ok"), ("finish", "serverClose", "ok"), ("finish", "inactive", "ok")}
     if need - seen:
         raise vlib.ToolError("vacuity: transitions never enumerated: %s" % (need - seen))
     g.replay_flow(rep, "c11", cases, timeout=3000, env={"VERIF_CYCLES": "3" if tier == "quick" else "25"},
